@@ -151,18 +151,160 @@ def missing_positional_at(specs, groups, j, starts=None):
     return any(i not in given for i in req)
 
 
+# ----------------------------------------------------------------------
+# the "--" family: "<core options...> <token that may still want a value> -- <remainder>"
+# ----------------------------------------------------------------------
+DD_FORMS = ("dd-core", "dd-core-val", "dd-task", "dd-req", "dd-first", "dd-multi")
+REM_WORDS = ["foo", "echo", "hi", "--bar", "-x", "a b", "", "--list", "-l", "--help", "-h", "-e", "--echo",
+             "--hide=out", "-T5", "--list-format=nested", "-F", "json", "-c", "--", "git", "checkout", "file"]
+
+
+def optional_core_flags(core_spec):
+    """every spelling of the optional-value core options (--list/-l, --help/-h)"""
+    return [pc.to_flag_py(n) for a in core_spec["args"] if a["optional"] and pc.takes_value(a) for n in a["names"]]
+
+
+def short_bool_letters(spec):
+    return [pc.to_flag_py(a["names"][pc.short_index(a)])[1] for a in spec["args"]
+            if not pc.takes_value(a) and not a["incrementable"] and pc.short_index(a) is not None]
+
+
+def bare_optional_spelling(rng, core_spec):
+    """--list | -l | --help | -h | a short-flag cluster ending in -l / -h (-wl, -eh, -wel)"""
+    fl = rng.choice(optional_core_flags(core_spec))
+    if not fl.startswith("--") and rng.random() < 0.45:
+        letters = rng.sample(short_bool_letters(core_spec), rng.choice([1, 1, 2]))
+        return "-" + "".join(letters) + fl[1]
+    return fl
+
+
+def task_words(specs):
+    out = []
+    for c in specs:
+        out.append(c["name"])
+        out.extend(c["aliases"])
+    return out
+
+
+def gen_rem(rng, specs):
+    """remainder tokens: nothing, words, things that look like task names / whole task
+    invocations / core flags (--list included) / further '--'"""
+    r = rng.random()
+    words = task_words(specs)
+    if r < 0.08:
+        return []
+    if r < 0.38 and specs:
+        # a complete, well-formed task invocation: would run if it leaked into task parsing
+        return flat(pc.spell_groups(specs, pc.gen_invocation(rng, specs, max_calls=2)))
+    if r < 0.58 and words:
+        return [rng.choice(words)] + [rng.choice(REM_WORDS + words) for _ in range(rng.randint(0, 2))]
+    return [rng.choice(REM_WORDS + words) for _ in range(rng.randint(1, 4))]
+
+
+def core_prefix_options(rng, core_spec, n):
+    """n core options in front (any spelling), none of them an optional-value option"""
+    out = []
+    used = set()
+    for _ in range(n):
+        for _ in range(8):
+            toks, flags, form = gen_one_option(rng, core_spec, allow_bare_optional=False)
+            a = pc.arg_of_flag(core_spec, flags[0])
+            if a is None or a["optional"] or set(flags) & used:
+                continue
+            used.update(flags)
+            out += toks
+            break
+    return out
+
+
+def trailing_task_flag(rng, c, core_spec, want):
+    """a last token for a call of task c: want = 'bare' (an optional-value flag without value:
+    the task's own if it has one, else/also the core's --list/-l/--help/-h) or 'req' (a flag
+    that requires a value)"""
+    if want == "bare":
+        own = [pc.to_flag_py(n) for a in c["args"] if a["optional"] and pc.takes_value(a)
+               and a["kind"] != "KList" for n in a["names"]]
+        if own and rng.random() < 0.7:
+            fl = rng.choice(own)
+            letters = short_bool_letters(c)
+            if not fl.startswith("--") and letters and rng.random() < 0.3:
+                return "-" + rng.choice(letters) + fl[1]
+            return fl
+        return bare_optional_spelling(rng, core_spec)
+    own = [pc.to_flag_py(n) for a in c["args"] if pc.takes_value(a) and not a["optional"] for n in a["names"]]
+    if own and rng.random() < 0.7:
+        return rng.choice(own)
+    return rng.choice(["--hide", "-f", "--config", "-T", "--command-timeout", "-c", "-D", "--list-format", "-F"])
+
+
+def gen_ddash(rng, sigs, specs, core_spec):
+    """one case of the '--' family.  Encoded like a free-form line (every body token its own
+    group, no moved option) with the remainder in [rem]: the clauses judged are S1 (remainder
+    verbatim), S2 (unparsed intact) and S4 (the line parses exactly like the line without
+    '-- rem')."""
+    r = rng.random()
+    prefix = core_prefix_options(rng, core_spec, rng.choice([0, 0, 1, 1, 2]))
+    if r < 0.40:
+        form, body = "dd-core", prefix + [bare_optional_spelling(rng, core_spec)]
+    elif r < 0.48:
+        fl = rng.choice(optional_core_flags(core_spec))
+        v = rng.choice(["cv", "ns1"] + task_words(specs))
+        form, body = "dd-core-val", prefix + rng.choice([[fl, v], [fl + "=" + v]])
+    elif r < 0.70:
+        inv = pc.gen_invocation(rng, specs, max_calls=2)
+        c = specs[inv[-1]["task"]]
+        form = "dd-task"
+        body = prefix + flat(pc.spell_groups(specs, inv)) + [trailing_task_flag(rng, c, core_spec, "bare")]
+    elif r < 0.82:
+        form = "dd-req"
+        if rng.random() < 0.5:
+            inv = pc.gen_invocation(rng, specs, max_calls=1)
+            c = specs[inv[-1]["task"]]
+            body = prefix + flat(pc.spell_groups(specs, inv)) + [trailing_task_flag(rng, c, core_spec, "req")]
+        else:
+            vals = [a for a in core_spec["args"] if pc.takes_value(a) and not a["optional"]]
+            a = rng.choice(vals)
+            body = prefix + [pc.to_flag_py(rng.choice(a["names"]))]
+    elif r < 0.90:
+        form, body = "dd-first", []
+    else:
+        form = "dd-multi"
+        body = prefix + rng.choice([[bare_optional_spelling(rng, core_spec)], [], [rng.choice(task_words(specs))]])
+    rem = gen_rem(rng, specs)
+    if form == "dd-multi":
+        k = rng.choice([1, 1, 2])
+        for _ in range(k):
+            rem.insert(rng.randint(0, len(rem)), "--")
+        if rng.random() < 0.4:
+            rem = ["--"] + rem
+    return {"sigs": sigs, "groups": [[t] for t in body], "opt": [], "j": 0, "flags": [], "rem": rem, "form": form}
+
+
+def norem_argv(case):
+    g, j = case["groups"], case["j"]
+    return flat(g[:j]) + list(case["opt"]) + flat(g[j:])
+
+
 class C18(Prop):
     id = "C18"
     corr_module = "Corr.C18Corr"
-    quick_n = 2400
+    quick_n = 2600
     thorough_n = 25000
     shard_size = 60
     rule = ("metamorphic triples over the real Program two-pass parse: a well-formed task invocation "
             "(1-3 calls, every documented spelling of the tasks' own arguments, as groups) + one core "
             "option (every core argument except --help; long/short, '=', spaced, glued short value, "
             "cluster of two short booleans) inserted at every group boundary; optional '--' remainder; "
-            "signatures with and without parameters shadowing core flags; plus 30% free-form command "
-            "lines (alphabet/mutation/fuzz as C07) for unparsed/remainder. non-trivial = option placed "
+            "signatures with and without parameters shadowing core flags; plus 25% free-form command "
+            "lines (alphabet/mutation/fuzz as C07) for unparsed/remainder; plus 22% the '--' family: "
+            "[0-2 core options] + a last body token + '--' + remainder, where the last token is a bare "
+            "optional-value core flag in every spelling (--list -l --help -h, last letter of a short cluster "
+            "-wl -eh -wel) before the first task (dd-core), the same with its value given (dd-core-val), a "
+            "bare optional-value task or core flag ending a task's argument list (dd-task), a flag that "
+            "requires a value, core or task (dd-req: the documented error), nothing at all ('--' first, "
+            "dd-first), or several '--' (dd-multi); remainders are empty, words, task names, complete "
+            "well-formed task invocations, core flags incl. --list/-l/--help, further '--'; every case with a "
+            "remainder is also run WITHOUT it (norem) and must parse identically (S4). non-trivial = option placed "
             "inside a task's argument list (j>=1) or a remainder present; distinct by (signatures, argv triple)")
     trusted_base = [
         "Coq 8.16.1 kernel + vm_compute",
@@ -182,6 +324,10 @@ class C18(Prop):
         "short flag as a flag taking NO value is, in that task's grammar, the cluster -f -c -v; what the "
         "further letters do is not judged (a change confined to that region shows up as a correspondence "
         "break without a failing specification input)",
+        "second don't-care region of the shadowing clause (Spec/C18Spec.v bare_value_reading): a bare boolean core "
+        "flag ('-p') moved into a task that declares that very flag as one taking a value is, in that task's "
+        "grammar, '-p <next token>': the task receives the flag, what the re-pairing with the following token "
+        "(possibly the next task's name) does to the rest of the line is not judged",
     ]
     not_modelled = ["update_config (core values -> config overrides; C15)", "kwargs as received by task bodies "
                     "(Executor; C04)", "Program.normalize_argv / binary name handling"]
@@ -195,7 +341,11 @@ class C18(Prop):
             alpha = pc.alphabet(specs, core_spec, rng)
             for _ in range(10):
                 r = rng.random()
-                if r < 0.3:
+                if r < 0.22:
+                    case = gen_ddash(rng, sigs, specs, core_spec)
+                    if any(pc.has_digit_hazard(t) for t in placed_argv(case)):
+                        continue
+                elif r < 0.47:
                     # free-form line: S1/S2 only
                     if rng.random() < 0.5:
                         argv = pc.mutate_line(rng, pc.spell_line(rng, specs, core_spec), alpha)
@@ -244,26 +394,57 @@ class C18(Prop):
                     for j in range(len(groups) + 1):
                         yield {"sigs": sigs, "groups": groups, "opt": opt, "j": j, "flags": [fl],
                                "rem": None, "form": form}
+        yield from self.enumerate_ddash(sigs)
+
+    def enumerate_ddash(self, sigs):
+        """the '--' family on SMALL_SIGS (t: --opt/-o optional value, -f boolean, --name; p/q: one
+        positional): every spelling of the optional-value core flags x core prefixes, bare
+        optional-value flags ending a task's arguments, value-requiring flags, '--' first, the
+        option with its value -- each x 12 remainders (empty, task names, task invocations, core
+        flags, '--')"""
+        bodies = []
+        for fl in ["--list", "-l", "--help", "-h", "-wl", "-el", "-eh", "-weh"]:
+            for pre in ([], ["-e"], ["-F", "json"], ["--hide=out"]):
+                bodies.append(("dd-core", pre + [fl]))
+        for b in (["t", "--opt"], ["t", "-o"], ["t", "--name", "x", "--opt"], ["t", "-fo"], ["t", "-l"],
+                  ["t", "--list"], ["t", "-h"], ["p", "v", "--help"], ["-e", "t", "--opt"], ["t", "-wl"]):
+            bodies.append(("dd-task", b))
+        for b in (["--hide"], ["-f"], ["-T"], ["-c"], ["t", "--name"], ["t", "-n"], ["t", "--hide"]):
+            bodies.append(("dd-req", b))
+        bodies.append(("dd-first", []))
+        for b in (["--list", "t"], ["--list=t"], ["-l", "x"], ["-lx"]):
+            bodies.append(("dd-core-val", b))
+        rems = [[], ["t"], ["t", "--opt"], ["--list"], ["-l", "t"], ["--"], ["--", "t"], ["foo"],
+                ["p", "v", "--no-yes"], ["-e"], ["echo", "hi"], [""]]
+        for form, body in bodies:
+            for rem in rems:
+                f = "dd-multi" if "--" in rem else form
+                yield {"sigs": sigs, "groups": [[t] for t in body], "opt": [], "j": 0, "flags": [],
+                       "rem": list(rem), "form": f}
 
     def run_impl(self, case):
         sigs = case["sigs"]
         placed = run_program(sigs, placed_argv(case))
-        if not case["opt"] and case.get("rem") is None:
-            return {"base": placed, "front": placed, "placed": placed}
+        # the same line without the trailing "-- remainder"
+        norem = placed if case.get("rem") is None else run_program(sigs, norem_argv(case))
+        if not case["opt"]:
+            # no moved option: base = front = the line without the remainder
+            return {"base": norem, "front": norem, "norem": norem, "placed": placed}
         base = run_program(sigs, flat(case["groups"]))
         front = run_program(sigs, list(case["opt"]) + flat(case["groups"]))
-        return {"base": base, "front": front, "placed": placed}
+        return {"base": base, "front": front, "norem": norem, "placed": placed}
 
     def to_coq(self, case, obs):
         specs = pc.ctx_specs(case["sigs"])
         rem = "None" if case.get("rem") is None else "(Some %s)" % ct.strs(case["rem"])
-        return "(mk %s %s %s %s %s %s %s %s %s %s)" % (
+        return "(mk %s %s %s %s %s %s %s %s %s %s %s)" % (
             ct.lst([pc.ctxspec(c, flat(case["groups"]) + list(case["opt"]) + list(case.get("rem") or []))
                     for c in specs]),
             ct.lst([ct.strs(g) for g in case["groups"]]), ct.lst([ct.n(i) for i in starts_of(case, specs)]),
             ct.strs(case["opt"]), ct.n(case["j"]),
             ct.strs(case["flags"]), rem,
-            ct.result(obs["base"], gobs), ct.result(obs["front"], gobs), ct.result(obs["placed"], gobs))
+            ct.result(obs["base"], gobs), ct.result(obs["front"], gobs),
+            ct.result(obs.get("norem", obs["placed"]), gobs), ct.result(obs["placed"], gobs))
 
     def nontrivial(self, case, obs):
         return (bool(case["opt"]) and case["j"] >= 1) or case.get("rem") is not None or \
@@ -311,6 +492,11 @@ class C18(Prop):
     def shrink_candidates(self, case):
         if case.get("rem") is not None:
             yield dict(case, rem=None)
+            rem = list(case["rem"])
+            if rem:
+                yield dict(case, rem=[])
+            for i in range(len(rem) - 1, -1, -1):
+                yield dict(case, rem=rem[:i] + rem[i + 1:])
         g, j = case["groups"], case["j"]
 
         def drop(i, newj):
@@ -493,7 +679,45 @@ class C18(Prop):
         failures = [f for f in failures if f.get("finding")] + [f for f in failures if not f.get("finding")][:1]
         return [{"name": "effects", "evaluations": evaluations, "failures": failures,
                  "note": "real Program.run in task-runner mode with recording task bodies; base/front/placed "
-                         "command lines compared on delivered kwargs, settings seen, remainder"}]
+                         "command lines compared on delivered kwargs, settings seen, remainder"},
+                self.single_pass_remainder(tier, seed)]
+
+    def single_pass_remainder(self, tier, seed):
+        """REMAINDER, one level down (a test on the real Parser, the way library users drive it:
+        ONE pass, task contexts + core context as initial, unknown tokens rejected): the '--'
+        family -- here a bare optional-value TASK flag right before '--' is seen by the very pass
+        that splits the remainder off.  body ++ ['--'] ++ rem must give the contexts of body
+        alone (or the same class of error) and remainder = ' '.join(rem)."""
+        rng = random.Random(seed + 1805)
+        n = 150 if tier == "quick" else 2000
+        core_spec = pc.initial_spec("core")
+        failures, evaluations = [], 0
+        from .c07 import SMALL_SIGS
+        cases = list(self.enumerate_ddash(SMALL_SIGS))
+        cases = rng.sample(cases, min(len(cases), n // 3))
+        while len(cases) < n:
+            sigs = pc.gen_sigs(rng, max_params=4)
+            specs = pc.ctx_specs(sigs)
+            for _ in range(6):
+                cases.append(gen_ddash(rng, sigs, specs, core_spec))
+        for case in cases:
+            body, rem = flat(case["groups"]), list(case["rem"])
+            without = pc.run_parse(case["sigs"], body, "core", False, purity=False)
+            with_ = pc.run_parse(case["sigs"], body + ["--"] + rem, "core", False, purity=False)
+            evaluations += 1
+            want = " ".join(rem)
+            what = None
+            if ("ok" in without) != ("ok" in with_) or ("err" in without and without != with_):
+                what = "the remainder changes the outcome: without %r, with %r" % (without, with_)
+            elif "ok" in with_:
+                if with_["ok"]["remainder"] != want or without["ok"]["remainder"] != "":
+                    what = "remainder not verbatim: %r, expected %r" % (with_["ok"]["remainder"], want)
+                elif (with_["ok"]["ctxs"], with_["ok"]["unparsed"]) != (without["ok"]["ctxs"], without["ok"]["unparsed"]):
+                    what = "the remainder changes the parse: without %r, with %r" % (without, with_)
+            if what:
+                failures.append({"case": case, "what": what})
+        return {"name": "remainder-single-pass", "evaluations": evaluations, "failures": failures[:1],
+                "note": "real Parser(contexts, initial=core).parse_argv, single pass: body+['--']+rem vs body"}
 
     def mutate(self, case, rng):
         g = case["groups"]
@@ -505,6 +729,24 @@ class C18(Prop):
             opt, flags, form = gen_core_option(rng, core_spec)
             yield dict(case, opt=opt, flags=flags, form=form if case["form"] != "free" else form,
                        j=rng.randint(0, len(g)))
+        # the '--' family around this case: its own line with a remainder (if it has none),
+        # other remainders, and the bare optional-value core flags right before '--'
+        specs = pc.ctx_specs(case["sigs"])
+        words = task_words(specs)
+        rems = [[], ["foo"], ["--list"], ["--", "x"]] + [[w] for w in words[:2]]
+        body = [t for t in norem_argv(case)]
+        if "--" in body:
+            body = body[:body.index("--")]
+        for rem in rems:
+            if rem != case.get("rem"):
+                yield dict(case, rem=list(rem))
+        for fl in optional_core_flags(core_spec) + ["-wl", "-eh"]:
+            for pre in ([], body):
+                for rem in rems:
+                    yield {"sigs": case["sigs"], "groups": [[t] for t in pre + [fl]], "opt": [], "j": 0,
+                           "flags": [], "rem": list(rem), "form": "dd-core" if not pre else "dd-task"}
+        for _ in range(10):
+            yield gen_ddash(rng, case["sigs"], specs, core_spec)
 
 
 PROP = C18()
